@@ -747,7 +747,8 @@ class Repeat(MultiCrossBlockRepeat):
                      block.orig_design, block.orig_crossings, block.crossing_sustain_counts, block.crossing_weights,
                      block.orig_constraints + constraints,
                      block.require_complete_crossing,
-                     mode = RepeatMode.REPEAT)
+                     mode = RepeatMode.REPEAT,
+                     alignment = block.alignment)
 
 # ~~~~~~~~~~~~~~~~~~~~~~~~~~~~~~~~~~~~~~~~~~~~~~~~~~~~~~~~~~~~~~~~~~~~~~~~~~~~~~~~~~~~~~~~~~~~~~~~~~~~~~~
 # ~~~~~~~~~~~~~                         Helper functions                            ~~~~~~~~~~~~~~~~~~~~~
